@@ -99,7 +99,9 @@ def _r1(ctx):
     ret_true = [r2 for r2 in ast.walk(mb.node) if isinstance(r2, ast.Return) and isinstance(r2.value, ast.Tuple)
                 and U(r2.value.elts[0]) == "True"]
     ctx.check(bool(ret_true) and bool(cnt) and U(ret_true[0].value.elts[1]) == cnt[0] and any(
-        p and "[0:len(%s)] == %s" % (mb.params()[2], mb.params()[2]) in U(e) for e, p in C.facts_at(ret_true[0])), "R1",
+        p and U(e) == C.canon_eq("%s[0:len(%s)]" % (U(wl[0].body[1].target) if len(wl[0].body) > 1 and isinstance(
+            wl[0].body[1], ast.AugAssign) else "extracted_bytes", mb.params()[2]), mb.params()[2])
+        for e, p in C.facts_at(ret_true[0])), "R1",
         "match iff the collected bytes start with the marker bytes; the count of consumed lines is returned", mb.where(),
         "match_bytes does not return (True, consumed lines) exactly when the byte prefix equals the marker", mb.qname,
         "byte comparison")
@@ -133,8 +135,8 @@ def _r2(ctx):
     for n, parts, slot in brs:
         m = re.search(r"%s\[(\d)\]" % re.escape(vals), slot)
         k = int(m.group(1)) if m else None
-        want = {"isinstance(source, ImmediateOperand)", "parser.normalize_imd(source) == %s[%s]" % (vals, k),
-                "isinstance(destination, RegisterOperand)", "parser.get_full_reg_name(destination) == %s" % reg}
+        want = {"isinstance(source, ImmediateOperand)", C.canon_eq("parser.normalize_imd(source)", "%s[%s]" % (vals, k)),
+                "isinstance(destination, RegisterOperand)", C.canon_eq("parser.get_full_reg_name(destination)", reg)}
         ok = set(parts) == want
         which = "start" if k == 0 else "end" if k == 1 else "?"
         ctx.check(ok, "R2", "%s marker = immediate value and register full name (4 conjuncts)" % which, f.where(n),
